@@ -1,8 +1,9 @@
 """C09 - splice replaces exactly the requested range and nothing else (bounded; DESIGN.md section 3, C09)."""
 from ..fold import new_interp
-from ..models import cells, runs_of
+from ..models import cells, runs_of, view_problem
 from ..objinterp import Obj
 from ..report import AnalysisError
+from .c06 import _look
 from .c14 import mk
 
 EXPLANATION = (
@@ -12,7 +13,9 @@ EXPLANATION = (
     "empty FmtStr) and every 0 <= start <= end <= len(f)+2 as well as end omitted, and compared with list splicing of the "
     "per-character (character, formatting) cells: cells(f)[:start] + cells(new) + cells(f)[end:] - Python's list slicing is the "
     "oracle, nothing is re-implemented.  Characters of a plain str are unformatted; append(x) is splice at the end; f itself reads "
-    "the same before and after; the result's own .s, len() and full slice agree with its runs (a pre-seeded length shows here)."
+    "the same before and after; the result's own .s, len(), str() (what a terminal shows, through the reference SGR machine) and full "
+    "slice agree with its runs (a pre-seeded length shows here); every call also with receiver and new value looked at beforehand "
+    "(.s, len, width, terminal string memoised); new values include plain strs made of control, zero-width and escape characters."
 )
 NOT_DECIDED = "values longer than the pool's; start > end and negative positions (outside the statement's quantifier)."
 
@@ -26,9 +29,13 @@ POOL = [
     ("'a' red + '' + 'bc' on blue bold (empty middle run)", [("a", A1), ("", A3), ("bc", A2)]),
     ("'ab' red + 'cd' underlined + '' (empty trailing run)", [("ab", A1), ("cd", A3), ("", {})]),
     ("'a' + 'b' + 'c' three runs", [("a", A1), ("b", A2), ("c", A3)]),
+    ("'e' + combining acute red + 'xy' on blue bold", [("e\u0301", A1), ("xy", A2)]),
 ]
 NEW = [("''", ""), ("'xy'", "xy"), ("'X' bold on blue", [("X", A2)]), ("'x' red + 'Y' underlined", [("x", A1), ("Y", A3)]),
-       ("an empty FmtStr", [("", {})]), ("a FmtStr without runs", [])]
+       ("an empty FmtStr", [("", {})]), ("a FmtStr without runs", []),
+       # plain strs that are not ordinary text: they are still unformatted characters, inserted as they are
+       ("a newline and a tab", "\n\t"), ("a lone combining acute", "\u0301"), ("'k' ESC 'OP' (an escape that is not ESC [)", "k\x1bOP"),
+       ("'a' CSI '31mb' (8-bit CSI)", "a\x9b31mb")]
 
 GROUPS = {
     "P1-splice-is-list-splice-of-the-cells": "splice(new, start, end) over the scope",
@@ -46,23 +53,35 @@ def check(src, rep):
     rep.trusted_base = ["CPython ast", "sa/consteval.py", "sa/absint.py", "sa/objinterp.py"]
     it = new_interp(src)
     f = src.func("formatstring", "FmtStr.splice")
+    if rep.tier == "thorough" and len(POOL) < 12:
+        for i in range(0, 6):
+            for j in range(i, 6):
+                POOL.append(("'abcde' cut at %d and %d" % (i, j), [("abcde"[:i], A1), ("abcde"[i:j], A2), ("abcde"[j:], A3)]))
     jobs = []
     for pi, (_, runs) in enumerate(POOL):
         n = sum(len(t) for t, _ in runs)
         for ni in range(len(NEW)):
-            for start in range(0, n + 3):
-                jobs.append(("insert", pi, ni, start, None))
-                for end in range(start, n + 3):
-                    jobs.append(("splice", pi, ni, start, end))
-            jobs.append(("append", pi, ni, None, None))
+            for star in ("", "*"):       # *: receiver and new value have been looked at (views memoised) before the call
+                for start in range(0, n + 3):
+                    jobs.append(("insert" + star, pi, ni, start, None))
+                    for end in range(start, n + 3):
+                        jobs.append(("splice" + star, pi, ni, start, end))
+                jobs.append(("append" + star, pi, ni, None, None))
 
     def one(job):
         kind, pi, ni, start, end = job
+        looked = kind.endswith("*")
+        kind = kind.rstrip("*")
         label, runs = POOL[pi]
         nlabel, new = NEW[ni]
         try:
             v = mk(it, *runs)
             nv = new if isinstance(new, str) else mk(it, *new)
+            if looked:
+                _look(it, v)
+                label += ", looked at before"
+                if not isinstance(new, str):
+                    _look(it, nv)
             cl = cells(runs)
             ncl = [(ch, ()) for ch in new] if isinstance(new, str) else cells(new)
             before = (cells(runs_of(v)), it.callm(v, "__str__"))
@@ -91,16 +110,26 @@ def check(src, rep):
         if r[0] != "ok" or not (isinstance(r[1], Obj) and r[1].cls == "FmtStr"):
             return (rule, desc, "gives %s; expected the characters %r" % (r, "".join(c for c, _ in want)))
         got = cells(runs_of(r[1]))
-        try:
-            views = (it.folder.obj_attr(r[1], "s"), it.callm(r[1], "__len__"), it.callm(r[1], "__getitem__", slice(None, None)))
-        except Exception as e:
-            if getattr(e, "name", None) is None:
-                return ("error", "views of %s outside the evaluated subset: %s" % (desc, e), "")
-            views = ("raises %s" % e.name, None, None)
         wt = "".join(c for c, _ in want)
-        if got == want and (views[0] != wt or views[1] != ("ok", len(wt)) or views[2][0] != "ok" or cells(runs_of(views[2][1])) != want):
-            return (rule, desc, "the result's runs are right (%r) but its own views are not: .s = %r, len() = %s, result[:] = %s"
-                    % (wt, views[0], views[1], "".join(c for c, _ in cells(runs_of(views[2][1]))) if views[2] and views[2][0] == "ok" else views[2]))
+        if got == want:
+            try:
+                why = view_problem(it, r[1])
+                full = it.callm(r[1], "__getitem__", slice(None, None))
+                if not isinstance(new, str):
+                    nwhy = cells(runs_of(nv)) != ncl and "the new value holds %s afterwards" % (runs_of(nv),) or view_problem(it, nv)
+                else:
+                    nwhy = None
+                rwhy = view_problem(it, v)
+            except AnalysisError as e:
+                return ("error", "views of %s outside the evaluated subset: %s" % (desc, e), "")
+            if why is not None:
+                return (rule, desc, "the result's runs are right (%r) but it disagrees with itself: %s" % (wt, why))
+            if full[0] != "ok" or cells(runs_of(full[1])) != want:
+                return (rule, desc, "the result's runs are right (%r) but result[:] gives %s" % (wt, full,))
+            if rwhy is not None:
+                return ("P4-receiver-unchanged", desc, "after the call the receiver disagrees with itself: %s" % rwhy)
+            if nwhy:
+                return ("P4-receiver-unchanged", desc, "after the call the new value is not what it was: %s" % nwhy)
         if got != want:
             gt, wt = "".join(c for c, _ in got), "".join(c for c, _ in want)
             if gt != wt:
